@@ -76,7 +76,30 @@ pub fn check_expr(e: &SpecE, budget: usize, ev: &mut Ev) {
     let t = top(e);
     let mut visited = vec![false; r.trans.len()];
     let mut bad = 0;
-    let strings = driving_strings(&r, budget);
+    let mut strings = driving_strings(&r, budget);
+    // "every other byte behaves alike" is what correct code does, not something to assume of the code under test:
+    // short strings containing the representative are replayed with other unused byte values (the reference maps all
+    // of them to the same symbol class)
+    {
+        let other = *alphabet.last().unwrap();
+        let alts: Vec<u8> = [0x00u8, 0x01, 0x20, 0x7f, 0x80, 0xc3, 0xfe, 0xff].iter().cloned().filter(|b| !alphabet.contains(b)).collect();
+        let mut extra = vec![];
+        for w in strings.iter().filter(|w| w.len() <= 4 && w.contains(&other)) {
+            for (ai, &a) in alts.iter().enumerate() {
+                // replace all, or only the last, occurrence
+                let mut v: Vec<u8> = w.iter().map(|&b| if b == other { a } else { b }).collect();
+                extra.push(v.clone());
+                if ai % 2 == 0 {
+                    if let Some(p) = w.iter().rposition(|&b| b == other) {
+                        v = w.clone();
+                        v[p] = a;
+                        extra.push(v);
+                    }
+                }
+            }
+        }
+        strings.extend(extra);
+    }
     for w in &strings {
         let rs = r.run(w);
         visited[rs] = true;
@@ -194,7 +217,7 @@ pub fn run(ctx: &Ctx) -> i32 {
     }
     {
         let mut r = Rng::new(ctx.seed, 0x18_b);
-        let pairs = ctx.tier.pick(25_000, 0);
+        let pairs = ctx.tier.pick(18_000, 0);
         if pairs == 0 {
             for x in &dfa_variants {
                 for y in &dfa_variants {
@@ -219,7 +242,7 @@ pub fn run(ctx: &Ctx) -> i32 {
     }
     {
         let mut r = Rng::new(ctx.seed, 0x18_d);
-        for i in 0..ctx.tier.pick(20_000, 300_000) {
+        for i in 0..ctx.tier.pick(14_000, 300_000) {
             let x = r.pick(&leaves).clone();
             let y = r.pick(&leaves).clone();
             let z = r.pick(&leaves).clone();
@@ -277,7 +300,7 @@ pub fn run(ctx: &Ctx) -> i32 {
         ev,
         Spec {
             level: "exploration",
-            rule: "one evaluation = one (expression, input string): the REAL fst::automaton value (Str, Subsequence, AlwaysMatch, explicit component DFAs with every sound hint assignment, composed through StartsWith/Union/Intersection/Complement/&A) is driven byte by byte and compared with a reference DFA built by textbook constructions: is_match == membership; can_match false only in states from which no accepting state is reachable; will_always_match true only in states from which only accepting states are reachable (both sets exact, by graph reachability, so they quantify over ALL continuations); a third brute-force membership definition must agree with the reference or the run aborts; expressions: all leaves (13 fixed + all <=2-state DFAs over 2 symbols x all sound hints + 3-state samples), all unary over leaves, fixed x all leaves binary both orders, DFA x DFA binary (thorough: complete; quick: 25000 sampled), all unary(unary(leaf)), sampled depth 2 and 3; inputs: all strings over the expression's symbol classes (each used byte + one representative of all other bytes) up to the budgeted length, plus a shortest representative of every reference state extended by all strings <=2 (so every reference state is visited: ref-states-visited == ref-states-total); non-trivial = every evaluation; distinct = by construction",
+            rule: "one evaluation = one (expression, input string): the REAL fst::automaton value (Str, Subsequence, AlwaysMatch, explicit component DFAs with every sound hint assignment, composed through StartsWith/Union/Intersection/Complement/&A) is driven byte by byte and compared with a reference DFA built by textbook constructions: is_match == membership; can_match false only in states from which no accepting state is reachable; will_always_match true only in states from which only accepting states are reachable (both sets exact, by graph reachability, so they quantify over ALL continuations); a third brute-force membership definition must agree with the reference or the run aborts; expressions: all leaves (13 fixed + all <=2-state DFAs over 2 symbols x all sound hints + 3-state samples), all unary over leaves, fixed x all leaves binary both orders, DFA x DFA binary (thorough: complete; quick: 18000 sampled), all unary(unary(leaf)), sampled depth 2 and 3; inputs: all strings over the expression's symbol classes (each used byte + one representative of all other bytes) up to the budgeted length, the short ones replayed with 00/01/20/7f/80/c3/fe/ff in place of the representative, plus a shortest representative of every reference state extended by all strings <=2 (so every reference state is visited: ref-states-visited == ref-states-total); non-trivial = every evaluation; distinct = by construction",
             assumptions: vec!["component DFAs have sound hints by construction (the statement's premise)".into(), "bytes not used by any leaf behave identically in every leaf, so one representative is exact".into()],
             floors: floors_ref,
             exhaustive: Some(false),
